@@ -1730,7 +1730,13 @@ class LoopExpression(Expression):
         if isinstance(obj, Mapping):
             return iter(obj.items()), len(obj)
         if isinstance(obj, range):
-            return iter(obj), len(obj)
+            try:
+                return iter(obj), len(obj)
+            except OverflowError as err:
+                raise LiquidValueError(
+                    f"range '{self.iterable}' is too long to loop over",
+                    token=self.token,
+                ) from err
         if isinstance(obj, Sequence):
             return iter(obj), len(obj)
 
